@@ -119,13 +119,9 @@ def alias(prog, rep, spec, tag):
         d["no-other-write"] = not other
         ok = all(d.values())
     rep.ob(P, "alias-then-checksum" + tag, ok, "set_station_alias patches the alias into the first 14 bytes, checksums them, then writes exactly word 4 (alias) and word 7 (checksum); %s" % d, loc=b.span)
-    sa = prog.body("SubDeviceEeprom::start_at")
-    nw = sa.calls_to("EepromRange::new")
-    ok = len(nw) == 1
-    if ok:
-        ln = Prov(sa).of_operand(nw[0].args[2])
-        ok = has_root(Prov(sa).of_operand(nw[0].args[1]), "arg", 2) and has_root(ln, "arg", 3) and has_root(ln, "binop", "Div") and has_root(ln, "const", 2)
-    rep.ob(P, "start_at:range" + tag, ok, "start_at(word, len_bytes) limits the range to len_bytes / 2 words from `word`", loc=sa.span, how="dataflow")
+    from . import c12
+
+    c12.byte_ranges(prog, rep, tag, "C14.range")
 
 
 def range_write(prog, rep, tag):
